@@ -1021,8 +1021,13 @@ func writeEvidence(id, tier string, seed uint64, p propInfo, ag *agg, wall time.
 		"violations":  violations,
 	}
 	b, _ := json.MarshalIndent(ev, "", " ")
-	os.MkdirAll(filepath.Join(outDir, "evidence"), 0o755)
-	if err := os.WriteFile(filepath.Join(outDir, "evidence", id+".json"), b, 0o644); err != nil {
+	evDir := filepath.Join(outDir, "evidence")
+	if len(id) != 3 {
+		// a companion harness run by hand (C09S, C01R, ...): not a property of its own
+		evDir = filepath.Join(outDir, ".cache", "companion-evidence")
+	}
+	os.MkdirAll(evDir, 0o755)
+	if err := os.WriteFile(filepath.Join(evDir, id+".json"), b, 0o644); err != nil {
 		die(2, "evidence: %v", err)
 	}
 }
